@@ -381,6 +381,10 @@ dispatch_get_global_queue(intptr_t priority, uintptr_t flags)
 	if (flags & ~(unsigned long)DISPATCH_QUEUE_OVERCOMMIT) {
 		return DISPATCH_BAD_INPUT;
 	}
+	if (priority != (intptr_t)(int32_t)priority) {
+		// not an identifier: do not let the truncation to qos_class_t alias it
+		return DISPATCH_BAD_INPUT;
+	}
 	dispatch_qos_t qos = _dispatch_qos_from_queue_priority(priority);
 #if !HAVE_PTHREAD_WORKQUEUE_QOS
 	if (qos == DISPATCH_QOS_MAINTENANCE) {
